@@ -501,6 +501,16 @@ fn process_tags(
                 None
             };
             let gen_result = t.generate_events(context);
+            // Exceeding a configured limit is fatal rather than a reason to retry: a retry
+            // re-runs the element from already-advanced state and may then 'succeed'.
+            if let Err(
+                SvgdxError::LoopLimitError(..)
+                | SvgdxError::VarLimitError(..)
+                | SvgdxError::DepthLimitExceeded(..),
+            ) = &gen_result
+            {
+                return gen_result.map(|_| None);
+            }
             if !context.in_specs {
                 // if we *are* in a specs block, we don't care if there were errors;
                 // a specs entry may have insufficient context until reuse time.
